@@ -2,389 +2,71 @@
 
 package syncx
 
-// C07 correspondence harness: G goroutines x K keys on one real SingleFlight / LockedCalls /
-// ResourceManager, every call and every execution of a user function stamped by one global atomic
-// counter. One section = one concurrent run; one line = one call:
-//
-//	call id=<n> g=<goroutine> key=<k> ex=<0|1> pre=<n> yield=<n> err=<0|1> hold=<0|1>
-//	   => inv=<stamp> ret=<stamp> val=<id|nil> fresh=<0|1|-> err=<id|-> fs=<stamp|-> fe=<stamp|-> runs=<n> stuck=<0|1>
-//
-// The generator (c07Gen) only writes op lines; the executor (c07RunSection) is driven by the op text alone,
-// so replay and shrinking re-run op lists. Every user function returns the id of the call it was passed
-// with, so a returned value names the execution it came from.
+// C07 correspondence harness for core/syncx: G goroutines x K keys on one real SingleFlight / LockedCalls /
+// ResourceManager. The section runner, the line format and the generator live in internal/verifc07
+// (harness/verifc07/c07.go); this file only says how one call is made on the real objects.
 
 import (
-	"bufio"
 	"fmt"
 	"io"
-	"os"
-	"runtime"
-	"strings"
-	"sync"
-	"sync/atomic"
 	"testing"
-	"time"
 
+	"github.com/zeromicro/go-zero/internal/verifc07"
 	"github.com/zeromicro/go-zero/internal/verifh"
 )
 
-type c07Val struct{ id int }
-
-type c07Err struct{ id int }
-
-func (e *c07Err) Error() string { return fmt.Sprintf("e%d", e.id) }
-
-type c07Res struct{ id int }
-
-func (r *c07Res) Close() error { return nil }
-
-type c07Call struct {
-	text                  string
-	id, g, key            int
-	ex, serr, hold        bool
-	pre, yield            int
-	inv, ret, fs, fe      int64
-	val, fresh, err       string
-	runs                  int32
-	done, stuck, free, ok bool
-	panicked              bool
-}
-
-func c07Parse(text string) (*c07Call, bool) {
-	f := strings.Fields(text)
-	if len(f) == 0 || f[0] != "call" {
-		return nil, false
-	}
-	c := verifh.ParseCfg(text)
-	for _, k := range []string{"id", "g", "key", "ex", "yield", "err", "hold"} {
-		if _, ok := c[k]; !ok {
-			return nil, false
-		}
-	}
-	return &c07Call{text: text, id: c.Int("id", -1), g: c.Int("g", 0), key: c.Int("key", 0),
-		ex: c.Int("ex", 0) == 1, serr: c.Int("err", 0) == 1, hold: c.Int("hold", 0) == 1,
-		pre: c.Int("pre", 0), yield: c.Int("yield", 0), val: "nil", fresh: "-", err: "-"}, true
-}
-
-func c07Spin(n int) {
-	for i := 0; i < n; i++ {
-		runtime.Gosched()
-	}
-}
-
-// c07RunSection executes one section on the real code and returns the observation per op line.
-func c07RunSection(cfg verifh.Cfg, ops []string) []string {
-	mode := cfg.Str("mode", "sf")
-	if p := cfg.Int("procs", 0); p > 0 {
-		defer runtime.GOMAXPROCS(runtime.GOMAXPROCS(p))
-	}
-	timeout := time.Duration(verifh.Scale(20, 60)) * time.Second
-	out := make([]string, len(ops))
-	var calls []*c07Call
-	idx := map[*c07Call]int{}
-	for i, op := range ops {
-		c, ok := c07Parse(op)
-		if !ok {
-			out[i] = "bad-op"
-			continue
-		}
-		idx[c] = i
-		calls = append(calls, c)
-	}
+func c07Target(cfg verifh.Cfg) verifc07.Target {
 	var (
-		stamp   atomic.Int64
-		mu      sync.Mutex // guards the observation fields (goroutines of a stuck section keep running)
-		sf      = NewSingleFlight()
-		lc      = NewLockedCalls()
-		rm      = NewResourceManager()
-		start   = make(chan struct{})
-		release = make(chan struct{})
-		freeWg  sync.WaitGroup
-		allWg   sync.WaitGroup
+		sf = NewSingleFlight()
+		lc = NewLockedCalls()
+		rm = NewResourceManager()
 	)
-	heldKeys := map[int]bool{}
-	for _, c := range calls {
-		if c.hold {
-			heldKeys[c.key] = true
-		}
+	if sfd := cfg.Str("sfd", "-"); sfd != "-" {
+		// delayed flight entry / exit: see verifc07.SlowSF
+		rm.singleFlight = verifc07.NewSlowSF(sfd, rm.singleFlight.Do, rm.singleFlight.DoEx)
 	}
-	byG := map[int][]*c07Call{}
-	var gs []int
-	for _, c := range calls {
-		if _, ok := byG[c.g]; !ok {
-			gs = append(gs, c.g)
-		}
-		byG[c.g] = append(byG[c.g], c)
-	}
-	// free calls: not behind a held key, neither directly nor through an earlier call of the same goroutine
-	for _, g := range gs {
-		blocked := false
-		for _, c := range byG[g] {
-			if heldKeys[c.key] {
-				blocked = true
-			}
-			c.free = !blocked
-			if c.free {
-				freeWg.Add(1)
-			}
-		}
-	}
-	fnOf := func(c *c07Call) func() (any, error) {
-		return func() (any, error) {
-			s := stamp.Add(1)
-			mu.Lock()
-			c.runs++
-			if c.runs == 1 {
-				c.fs = s
-			}
-			mu.Unlock()
-			if c.hold {
-				<-release
-			}
-			c07Spin(c.yield)
-			e := stamp.Add(1)
-			mu.Lock()
-			c.fe = e
-			mu.Unlock()
-			if mode == "rm" {
-				if c.serr {
-					return nil, &c07Err{c.id}
-				}
-				return &c07Res{c.id}, nil
-			}
-			if c.serr {
-				return c07Val{c.id}, &c07Err{c.id}
-			}
-			return c07Val{c.id}, nil
-		}
-	}
-	for _, g := range gs {
-		allWg.Add(1)
-		go func(list []*c07Call) {
-			defer allWg.Done()
-			<-start
-			for _, c := range list {
-				c07Spin(c.pre)
-				fn := fnOf(c)
-				var (
-					v     any
-					err   error
-					fresh = "-"
-				)
-				inv := stamp.Add(1)
-				func() {
-					defer func() {
-						if p := recover(); p != nil {
-							mu.Lock()
-							c.panicked = true
-							mu.Unlock()
-						}
-					}()
-					switch mode {
-					case "sf":
-						if c.ex {
-							var f bool
-							v, f, err = sf.DoEx(fmt.Sprint(c.key), fn)
-							fresh = "0"
-							if f {
-								fresh = "1"
-							}
-						} else {
-							v, err = sf.Do(fmt.Sprint(c.key), fn)
-						}
-					case "lc":
-						v, err = lc.Do(fmt.Sprint(c.key), fn)
-					default:
-						var r io.Closer
-						r, err = rm.GetResource(fmt.Sprint(c.key), func() (io.Closer, error) {
-							x, e := fn()
-							if e != nil {
-								return nil, e
-							}
-							return x.(io.Closer), nil
-						})
-						if r != nil {
-							v = r
-						}
+	mode := cfg.Str("mode", "sf")
+	return verifc07.Target{
+		Invoke: func(c *verifc07.Call, fn func() (any, error)) (v any, fresh string, err error) {
+			fresh = "-"
+			key := fmt.Sprint(c.Key())
+			switch mode {
+			case "sf":
+				if c.Ex() {
+					var f bool
+					v, f, err = sf.DoEx(key, fn)
+					fresh = "0"
+					if f {
+						fresh = "1"
 					}
-				}()
-				ret := stamp.Add(1)
-				mu.Lock()
-				c.inv, c.ret, c.fresh, c.done = inv, ret, fresh, true
-				switch x := v.(type) {
-				case c07Val:
-					c.val = fmt.Sprint(x.id)
-				case *c07Res:
-					c.val = fmt.Sprint(x.id)
-				case nil:
-					c.val = "nil"
-				default:
-					c.val = "bad"
+				} else {
+					v, err = sf.Do(key, fn)
 				}
-				if e, ok := err.(*c07Err); ok {
-					c.err = fmt.Sprint(e.id)
-				} else if err != nil {
-					c.err = "bad"
-				}
-				mu.Unlock()
-				if c.free {
-					freeWg.Done()
-				}
-			}
-		}(byG[g])
-	}
-	waitTimeout := func(wg *sync.WaitGroup) bool {
-		ch := make(chan struct{})
-		go func() { wg.Wait(); close(ch) }()
-		select {
-		case <-ch:
-			return true
-		case <-time.After(timeout):
-			return false
-		}
-	}
-	close(start)
-	freeOk := waitTimeout(&freeWg)
-	if !freeOk {
-		mu.Lock()
-		for _, c := range calls {
-			if c.free && !c.done {
-				c.stuck = true
-			}
-		}
-		mu.Unlock()
-	}
-	close(release)
-	allOk := waitTimeout(&allWg)
-	mu.Lock()
-	defer mu.Unlock()
-	for _, c := range calls {
-		if !c.done {
-			// never returned: deadlock or lost wake-up
-			c.stuck = true
-			if c.inv == 0 {
-				c.inv = stamp.Add(1)
-			}
-			c.ret = stamp.Add(1)
-		}
-		dash := func(v int64) string {
-			if v == 0 {
-				return "-"
-			}
-			return fmt.Sprint(v)
-		}
-		st := 0
-		if c.stuck {
-			st = 1
-		}
-		out[idx[c]] = fmt.Sprintf("inv=%d ret=%d val=%s fresh=%s err=%s fs=%s fe=%s runs=%d stuck=%d",
-			c.inv, c.ret, c.val, c.fresh, c.err, dash(c.fs), dash(c.fe), c.runs, st)
-		if c.panicked {
-			out[idx[c]] += " panic=1"
-		}
-	}
-	_ = allOk
-	return out
-}
-
-// ---------------------------------------------------------------- generator
-
-func c07Gen(r *verifh.Rng) []verifh.Section {
-	var secs []verifh.Section
-	nsec := verifh.Scale(1200, 10000)
-	for i := 0; i < nsec; i++ {
-		mode := "sf"
-		switch x := r.Intn(10); {
-		case x < 5:
-			mode = "sf"
-		case x < 8:
-			mode = "lc"
-		default:
-			mode = "rm"
-		}
-		g := r.Pick(2, 3, 4, 6, 8, r.Range(2, 12))
-		if verifh.Thorough() && r.Chance(1, 20) {
-			g = r.Range(12, 48)
-		}
-		k := r.Pick(1, 1, 2, 3)
-		procs := r.Pick(1, 2, 4, 8, 0)
-		// style of the run: many tiny calls (a new call meets the completion of the previous flight),
-		// long functions (many joiners), mixed
-		style := r.Intn(4)
-		holdSec := r.Chance(1, 6) && k >= 2
-		var ops []string
-		id := 0
-		for gi := 0; gi < g; gi++ {
-			n := r.Range(1, verifh.Scale(6, 10))
-			holder := holdSec && gi == 0
-			for j := 0; j < n; j++ {
-				id++
-				key := r.Intn(k)
-				hold := 0
-				if holdSec {
-					if holder {
-						key = 0
-						if j == 0 {
-							hold = 1
-						}
-					} else if r.Chance(4, 5) {
-						key = r.Range(1, k-1)
+			case "lc":
+				v, err = lc.Do(key, fn)
+			default:
+				var r io.Closer
+				r, err = rm.GetResource(key, func() (io.Closer, error) {
+					x, e := fn()
+					if e != nil {
+						return nil, e
 					}
+					return x.(io.Closer), nil
+				})
+				if r != nil {
+					v = r
 				}
-				var pre, yield int
-				switch style {
-				case 0:
-					pre, yield = r.Intn(2), r.Intn(2)
-				case 1:
-					pre, yield = r.Intn(3), r.Range(3, 30)
-				case 2:
-					pre, yield = r.Intn(40), r.Intn(4)
-				default:
-					pre, yield = r.Pick(0, 0, 1, 5, 20), r.Pick(0, 0, 1, 3, 10, 50)
-				}
-				serr := 0
-				if r.Chance(1, 4) {
-					serr = 1
-				}
-				ex := 1
-				if mode == "sf" && r.Chance(1, 3) {
-					ex = 0
-				}
-				if mode != "sf" {
-					ex = 0
-				}
-				ops = append(ops, fmt.Sprintf("call id=%d g=%d key=%d ex=%d pre=%d yield=%d err=%d hold=%d",
-					id, gi, key, ex, pre, yield, serr, hold))
 			}
-		}
-		secs = append(secs, verifh.Section{Cfg: fmt.Sprintf("mode=%s g=%d k=%d procs=%d", mode, g, k, procs), Ops: ops})
+			return
+		},
+		Inject: func(key int, res *verifc07.Res) { rm.Inject(fmt.Sprint(key), res) },
+		Close:  func() error { return rm.Close() },
 	}
-	return secs
 }
 
 func TestVerifC07(t *testing.T) {
-	secs := verifh.Sections(c07Gen)
-	var w *bufio.Writer
-	if p := os.Getenv("VERIF_TRACE_OUT"); p != "" {
-		f, err := os.Create(p)
-		if err != nil {
-			t.Fatal(err)
-		}
-		defer f.Close()
-		w = bufio.NewWriterSize(f, 1<<20)
-	} else {
-		w = bufio.NewWriter(os.Stdout)
-	}
-	defer w.Flush()
-	nops := 0
-	for _, s := range secs {
-		fmt.Fprintf(w, "begin %s\n", s.Cfg)
-		obs := c07RunSection(verifh.ParseCfg(s.Cfg), s.Ops)
-		for i, op := range s.Ops {
-			fmt.Fprintf(w, "%s => %s\n", op, obs[i])
-			nops++
-		}
-		fmt.Fprintf(w, "end\n")
-	}
-	t.Logf("verifh: %d sections, %d calls", len(secs), nops)
+	secs := verifh.Sections(func(r *verifh.Rng) []verifh.Section {
+		return verifc07.Gen(r, verifh.Scale(400, 10000), "")
+	})
+	verifc07.WriteTrace(t, secs, c07Target)
 }
